@@ -1,6 +1,6 @@
 (* C15 — Range queries and Display agree with membership.  Any decidable total order of versions. *)
 From Coq Require Import Orders List Bool.
-From PG Require Import Model.Text Model.Range Model.Instances Proofs.RangeSimplify Proofs.RangeSimplify2.
+From PG Require Import Model.Text Model.Range Model.Instances Proofs.RangeSimplify Proofs.RangeSimplify2 Proofs.GenEq.
 
 Module C15 (V : UsualOrderedTypeFull).
   Module Import P := RangeSimplify2P V.
@@ -69,6 +69,11 @@ Module C15 (V : UsualOrderedTypeFull).
 
   Theorem range_iter_union : forall r x, den r x <-> exists sg, In sg (iter r) /\ in_seg x sg.
   Proof. exact iter_union. Qed.
+  Module GE := GenRangeEq V.
+  (* tie to the source: within_bounds (the cursor's comparison) regenerated from src/range.rs on this run *)
+  Theorem range_within_bounds_matches_source :
+    forall v sg, GE.G.gen_within_bounds v sg = GE.M.within_bounds v sg.
+  Proof. exact GE.range_within_bounds_matches_source. Qed.
 End C15.
 
 Module C15Z := C15 ZV.
@@ -91,3 +96,4 @@ Print Assumptions C15Z.range_display_denotes.
 Print Assumptions C15Z.range_display_injective.
 Print Assumptions C15Z.range_display_is_render.
 Print Assumptions C15Z.range_iter_union.
+Print Assumptions C15Z.range_within_bounds_matches_source.
